@@ -9,7 +9,7 @@ ALL = ['C%02d' % i for i in range(1, 21)]
 
 # id -> (spec modules, technique, level text, level note, design ref)
 CHECKS = {
-    'C01': (['FM94.tla', 'FM94Gen.tla', 'Tables.tla', 'Column.tla', 'Framing.tla', 'Wide.tla', 'Bits.tla'],
+    'C01': (['FM94.tla', 'FM94Gen.tla', 'Tables.tla', 'Column.tla', 'Framing.tla', 'Wide.tla', 'Bits.tla', 'Scope.tla'],
             'TLA+ spec FM94.tla (FM-94 template walker as a state machine, tables read as data) model-checked by TLC over a template '
             'catalogue plus grammar-derived WF templates per seed (vf/gen.py) x factors x bitmap bits x compression x subsets; every TLC behaviour (message octets assembled by Framing.tla) is '
             'replayed into the real Decoder (results and the hook-recorded primitive calls: label, effective width / scale / reference); every program that satisfies Scope.Scoped (flag carried by the behaviour) a second time through one compiling Decoder per worker; version-dependent templates alternately under three table versions through one Decoder; sample corpus parsed by the specification in consume form and compared, with hook-recorded bit cursors and parameters',
@@ -20,7 +20,7 @@ CHECKS = {
             'Trusted: TLC; FM94.tla/Tables.tla/Framing.tla as the reading of FM-94; the table JSON files; the float->scaled-integer projection '
             '(vf/pyb.py). Templates stay inside WF (DESIGN 2.6). Exhaustive only inside the bounds written into the evidence.',
             'DESIGN.md section 3 C01'),
-    'C02': (['FM94.tla', 'FM94Gen.tla', 'Column.tla', 'Framing.tla'],
+    'C02': (['FM94.tla', 'FM94Gen.tla', 'Column.tla', 'Framing.tla', 'Scope.tla'],
             'TLA+ spec FM94.tla in produce form gives the canonical bits (catalogue + grammar-derived templates); TLC behaviours replayed into the real Encoder: uncompressed output '
             'byte-identical to the message assembled by Framing.tla, compressed output re-read by the specification (consume form, second TLC run); '
             'encoder primitive calls compared through the hooks; scoped programs also through one compiling Encoder per worker; cross-version pass through one Encoder; re-encoded corpus parsed by the specification',
@@ -30,7 +30,7 @@ CHECKS = {
             'Trusted: TLC; FM94.tla/Column.tla/Framing.tla; values handed over are exact decimals N/10^scale. Compressed output is judged by '
             'legality, not equality with one canonical width.',
             'DESIGN.md section 3 C02'),
-    'C03': (['Quant.tla', 'FM94.tla', 'Tables.tla'],
+    'C03': (['Quant.tla', 'FM94.tla', 'Tables.tla', 'Scope.tla'],
             'TLA+ spec Quant.tla (value<->raw relation over exact decimals, parameters from the table files) model-checked by TLC on all inputs '
             'around the range ends, incl. compressed columns of off-grid inputs judged entry by entry (PointwiseColumn); the range rule for every width 1..64 stated on bit lengths (WideFits: raw values around 2^n and around every octet multiple above the field); every (case, input) replayed into the real Encoder/Decoder and judged by the relation; fixpoint E(render(D(b)))=b '
             'on FM94 behaviours and double round trip on the corpus',
@@ -39,7 +39,7 @@ CHECKS = {
             'Trusted: TLC; Quant.tla; IEEE-754 rounding is not modelled (ties accepted either way, inputs have one digit beyond the scale); '
             'cases limited to 32-bit arithmetic.',
             'DESIGN.md section 3 C03'),
-    'C05': (['Column.tla', 'ColumnMC.tla', 'FM94.tla'],
+    'C05': (['Column.tla', 'ColumnMC.tla', 'FM94.tla', 'Scope.tla'],
             'TLA+ specs Column.tla/ColumnMC.tla: exhaustive TLC model of one compressed column (reader written separately from writer) over all '
             'columns <=4 subsets, widths <=3/4, every legal difference width; the same columns generated as messages by FM94.tla (all-contents mode) '
             'and replayed into Decoder, Encoder (output re-read by the specification) and the uncompressed path; columns of 52..64-bit fields by value classes (incl. 2^(w-2)+1) for every seed',
@@ -73,7 +73,7 @@ CHECKS = {
             'and serialized bytes, or a library error exactly when the specification reader fails.',
             'Trusted: TLC; Framing.tla/FramingSM.tla; data sections are runs of one-bit flags. Section 3 takes no surplus beyond its pad octet (two spare octets are a descriptor).',
             'DESIGN.md section 3 C04'),
-    'C11': (['Stream.tla', 'Framing.tla'],
+    'C11': (['Stream.tla', 'Framing.tla', 'Cmd.tla'],
             'TLA+ spec Stream.tla (scanner loop as a state machine, one action per loop exit, concrete octets assembled in the spec) model-checked by TLC over '
             'all streams of <=2/3 pool messages x separators x modes, plus a length sweep (messages of 256/509 consecutive total lengths, every value of the low length octet); every terminal state replayed into generate_bufr_message with hooks on: delivered bytes, '
             'end status and every loop iteration (found-at, next cursor, outcome) compared with the history variable; CLI split / info -c on a sample; Cmd.tla: every info / split invocation over files of several messages through pybufrkit.main()',
@@ -81,7 +81,7 @@ CHECKS = {
             'with per-iteration trace comparison.',
             'Trusted: TLC; Stream.tla; pool of 4-5 small messages; separators without start signature; filter expression ${%edition} == 4.',
             'DESIGN.md section 3 C11'),
-    'C12': (['Stream.tla', 'Framing.tla'],
+    'C12': (['Stream.tla', 'Framing.tla', 'Cmd.tla'],
             'TLA+ spec Stream.tla with fault actions (stop signature, undefined element/sequence descriptor, section length -1/+1 in sections 1/3/4, truncation at every octet) '
             'model-checked by TLC over streams x fault subsets x modes (ContinueSkipsOnlyDamaged, NoContinueDeliversPrefixThenError, NoPrefixDecodes); every terminal state '
             'replayed into the real scanner with exception type and per-iteration trace compared, a second time in series through one Decoder (values-not-enforced and failing scans in between) and in processes that have read in-stream table definitions; Cmd.tla: every `decode` invocation over damaged files through pybufrkit.main() (what is printed before the failure, the error on stderr without traceback)',
@@ -89,14 +89,14 @@ CHECKS = {
             'deliver exactly the messages the specification delivers and fail with the library error type.',
             'Trusted: TLC; Stream.tla including InfoOK (what metadata-only decoding can see); total length of damaged messages intact.',
             'DESIGN.md section 3 C12'),
-    'C17': (['MdQuery.tla', 'Stream.tla', 'Framing.tla'],
+    'C17': (['MdQuery.tla', 'Stream.tla', 'Framing.tla', 'Cmd.tla'],
             'TLA+ spec MdQuery.tla (expression parser + first-match/explicit-section lookup over section layouts read as data, cross-checked against Framing.tla) '
             'model-checked by TLC over all parameter names x index forms x prefixes x editions x section 2 x mode; every case replayed into MetadataQuerent on real '
             'full / metadata-only decodes, and in both orders through one querent and one decoder per series of messages; Stream.tla runs in metadata-only mode with data damage; corpus messages with overwritten data sections; metadata-only scans (three filters) over the prepbufr stream with overwritten data sections; Cmd.tla query invocations',
             'Exhaustive over the bounded expression space on specification and implementation; metadata-only decoding shown independent of the data section.',
             'Trusted: TLC; MdQuery.tla; definitions/*.json as data for parameter names.',
             'DESIGN.md section 3 C17'),
-    'C09': (['Wiring.tla', 'FM94Tree.tla', 'FM94.tla'],
+    'C09': (['Wiring.tla', 'FM94Tree.tla', 'FM94.tla', 'Cmd.tla'],
             'TLA+ spec Wiring.tla (hierarchical view as a function of the walker output) with invariant TreeConserves model-checked by TLC on every catalogue behaviour; '
             'every behaviour replayed: four real renderings, three converters back to flat JSON, real nested JSON compared node by node with the specification tree, '
             'four encodings compared with the specification octets, CLI encode in subprocesses; templates incl. 221 spans over replications, sequences and operators and nested 204; Cmd.tla: every decode (-j / -a / -m) and encode (formats x --append x --preamble) invocation through pybufrkit.main(); sample files through the consume form + Wiring',
@@ -111,19 +111,19 @@ CHECKS = {
             'Exhaustive over the bounded list space on both sides; exhaustive over the data of the selected table versions (thorough: all bundled ones).',
             'Trusted: TLC; the reading of FM-94 94.5.4 in Build; table JSON files; references >= 2^31 not compared.',
             'DESIGN.md section 3 C14'),
-    'C16': (['Query.tla', 'Wiring.tla', 'FM94Tree.tla'],
+    'C16': (['Query.tla', 'Wiring.tla', 'FM94Tree.tla', 'Cmd.tla'],
             'TLA+ spec Query.tla (path evaluation with slices, replication envelopes, bare IDs, subset selectors) over Wiring.tla trees; TLC evaluates every path that exists in every '
             'behaviour (depth 4/6) with every slice form (incl. bounds of different sign) at every position; each (message, subset, path) replayed into DataQuerent on interpreted and compiled decodes, compressed and uncompressed, per subset (@[s]) and over the whole message (every subset, reversed selector), on one long-lived querent with malformed paths in between; Cmd.tla query invocations',
             'The specification is the executable meaning of the path language; results are compared value by value (nested structure included) for every generated path.',
             'Trusted: TLC; Query.tla/Wiring.tla; paths are generated from the specification tree.',
             'DESIGN.md section 3 C16'),
-    'C18': (['Script.tla'],
+    'C18': (['Script.tla', 'Cmd.tla'],
             'TLA+ spec Script.tla: reference semantics on fragment sequences vs character automaton, model-checked by TLC over all scripts of <=4/5 fragments; every script replayed into '
             'process_embedded_query_expr / ScriptRunner; nesting-level laws validated by TLC on recorded query results of real messages (paths crossed with subset selectors, incl. selections whose first subset contributes nothing); Cmd.tla script invocations (nest level from option, pragma or default)',
             'Exhaustive over the bounded fragment space on both sides; the level laws are checked by TLC on recorded implementation output (trace validation).',
             'Trusted: TLC; Script.tla; escape-free literals.',
             'DESIGN.md section 3 C18'),
-    'C08': (['Compiler.tla', 'FM94.tla', 'FM94Gen.tla'],
+    'C08': (['Compiler.tla', 'FM94.tla', 'FM94Gen.tla', 'Scope.tla'],
             'TLA+ specs FM94.tla (required behaviour) and Compiler.tla (Scoped: the single-pass condition under which the property applies, evaluated by TLC per program; '
             'compiled-template cache model explored over all request histories); every FM94 behaviour of every scoped program replayed through the real compiled Decoder/Encoder '
             '(cache sizes 0,1,2,8), through compile -> JSON -> load -> execute, and request histories replayed on one coder object over a message pool sharing templates across table versions',
